@@ -373,7 +373,7 @@ def render_pptx(doc, *, images=None, opts=None) -> bytes:
     opts = opts or {}
     images = images or []
     n = len(doc["units"])
-    part_no = opts.get("slide_part_order") or list(range(1, n + 1))  # part number used by the i-th slide in reading order
+    part_no = opts.get("slide_part_order") or (list(range(n, 0, -1)) if opts.get("permute_parts") else list(range(1, n + 1)))  # part number used by the i-th slide in reading order
     parts, media = {}, {}
     ctypes = ['<Default Extension="rels" ContentType="application/vnd.openxmlformats-package.relationships+xml"/>', '<Default Extension="xml" ContentType="application/xml"/>']
     for ext, mt in MIME.items():
@@ -441,7 +441,7 @@ def render_pptx(doc, *, images=None, opts=None) -> bytes:
     parts["ppt/presentation.xml"] = (f'<?xml version="1.0" encoding="UTF-8" standalone="yes"?><p:presentation {_P_NS}><p:sldMasterIdLst><p:sldMasterId id="2147483648" r:id="rId1"/></p:sldMasterIdLst>'
                                      f'<p:sldIdLst>{"".join(sld_ids)}</p:sldIdLst><p:sldSz cx="9144000" cy="6858000"/><p:notesSz cx="6858000" cy="9144000"/></p:presentation>')
     # relationship order in the rels part deliberately differs from reading order when parts are permuted
-    parts["ppt/_rels/presentation.xml.rels"] = _rels(sorted(pres_rels, key=lambda r: r[2]) if opts.get("slide_part_order") else pres_rels)
+    parts["ppt/_rels/presentation.xml.rels"] = _rels(sorted(pres_rels, key=lambda r: r[2]) if (opts.get("slide_part_order") or opts.get("permute_parts")) else pres_rels)
     master_text = '<p:sp><p:nvSpPr><p:cNvPr id="2" name="Title Placeholder"/><p:cNvSpPr/><p:nvPr><p:ph type="title"/></p:nvPr></p:nvSpPr><p:spPr/><p:txBody><a:bodyPr/><a:lstStyle/><a:p><a:r><a:rPr lang="en-US"/><a:t>Click to edit Master title style</a:t></a:r></a:p></p:txBody></p:sp>'
     parts["ppt/slideMasters/slideMaster1.xml"] = (f'<?xml version="1.0" encoding="UTF-8" standalone="yes"?><p:sldMaster {_P_NS}><p:cSld><p:spTree><p:nvGrpSpPr><p:cNvPr id="1" name=""/><p:cNvGrpSpPr/><p:nvPr/></p:nvGrpSpPr><p:grpSpPr/>{master_text}</p:spTree></p:cSld>'
                                                   '<p:clrMap bg1="lt1" tx1="dk1" bg2="lt2" tx2="dk2" accent1="accent1" accent2="accent2" accent3="accent3" accent4="accent4" accent5="accent5" accent6="accent6" hlink="hlink" folHlink="folHlink"/>'
